@@ -31,10 +31,13 @@ class _P(Policy):
 
 
 class _NoInline(Policy):
+    """Helpers of the parser module are inlined (a predicate may be moved into a function); the rule's vocabulary
+    (next_char_boundary, Operator accessors) stays opaque."""
     max_depth = 5
 
     def inline(self, fn, args, interp, path):
-        return False
+        return fn.get("path", "").startswith("parser::") and fn.get("name") not in ("next_char_boundary", "tokenize_and_analyze",
+                                                                                  "is_operator_binary", "find_parsed_token")
 
 
 def run(ctx):
@@ -262,9 +265,32 @@ def run(ctx):
         if st["k"] == "assign" and st["rv"]["k"] == "aggregate" and st["rv"].get("variant") == "Var" and (st["rv"].get("adt") or "").endswith("ParsedToken"):
             term = org.op_term(st["rv"]["ops"][0])
             nvar += 1
-            REST = r"std::ops::Index::index\(param:\w+, std::ops::RangeFrom::RangeFrom\{var:\w+\}\)"
-            bare = re.match(r"^regex::Match::<'h>::as_str\(\(regex::Regex::find\(.*RE_VAR_NAME\}?\)?, %s\) as Some\)\.0\)$" % REST, term)
-            brace = re.match(r"^std::ops::Index::index\(%s, std::ops::Range::Range\{1_usize, std::iter::Iterator::sum\(std::iter::Iterator::map\(std::iter::Iterator::take_while\(core::str::<impl str>::chars\(%s\), .*\)\)\}\)$" % (REST, REST), term)
+            # the rest of the text from the current position (the start offset itself is not decided here)
+            tm = _dom.parse_term(term)
+
+            def is_rest(x):
+                return isinstance(x, tuple) and x[0] == "std::ops::Index::index" and len(x[1]) == 2 and isinstance(x[1][0], str) and x[1][0].startswith("param:") \
+                    and _dom.unparse_term(x[1][1]).startswith("std::ops::RangeFrom::RangeFrom{")
+
+            def brace_end(n, rest):
+                """accepted spellings of `offset of the closing brace in rest (or its end)`"""
+                # (temporaries of one and the same definition may be rendered under different names at depth)
+                anon = lambda z: re.sub(r"var:[\w#]+", "var:*", z)
+                s, r = anon(_dom.unparse_term(n)), re.escape(anon(_dom.unparse_term(rest)))
+                if re.match(r"^std::iter::Iterator::sum\(std::iter::Iterator::map\(std::iter::Iterator::take_while\(core::str::<impl str>::chars\(%s\), .*\)\)$" % r, s):
+                    return True
+                if re.match(r"^std::option::Option::<T>::unwrap_or\(core::str::<impl str>::find\(%s, '\}'\), core::str::<impl str>::len\(%s\)\)$" % (r, r), s):
+                    return True
+                return False
+            bare = brace = False
+            if isinstance(tm, tuple) and tm[0] == "regex::Match::<'h>::as_str" and len(tm[1]) == 1:
+                m_ = re.match(r"^\(regex::Regex::find\((.*RE_VAR_NAME\}?\)?), (std::ops::Index::index\(.*\))\) as Some\)\.0$", _dom.unparse_term(tm[1][0]))
+                if m_ and "RE_VAR_NAME_EXACT" not in m_.group(1) and is_rest(_dom.parse_term(m_.group(2))):
+                    bare = True
+            if isinstance(tm, tuple) and tm[0] == "std::ops::Index::index" and len(tm[1]) == 2 and is_rest(tm[1][0]):
+                m_ = re.match(r"^std::ops::Range::Range\{1_usize, (.*)\}$", _dom.unparse_term(tm[1][1]))
+                if m_ and brace_end(_dom.parse_term(m_.group(1)), tm[1][0]):
+                    brace = True
             if bare:
                 chk.ok("R13.5", "bare variable = the regex match", "", loc(st["span"]))
             elif brace:
